@@ -10,7 +10,7 @@ import os, random, gc, sys
 
 from sim import sched as S
 S.install_lock_interception()          # before lark is imported anywhere in this process
-from sim import core, workload as W, ops as O
+from sim import core, workload as W, ops as O, nodes
 from sim.core import Check, Outcome, Violation, jhash, ddmin
 
 PROBES = ('BasicLexer._build_scanner', 'BasicLexer.scanner', 'BasicLexer.search_scanner', 'BasicLexer.next_token', 'ContextualLexer.lex',
@@ -58,6 +58,7 @@ class C10(Check):
         self.thread_cfgs = [c for c in self.all_cfgs if not c.startswith(THREAD_CFG_EXCLUDE)]
         self.gen_inst = {}
         self.expected = {}
+        self.pristine = {}
 
     def _gen_inst(self, cfg):
         p = self.gen_inst.get(cfg)
@@ -134,7 +135,30 @@ class C10(Check):
     def _gen_earley_sibling(self, rng, cfg):
         return None
 
+    FAMILIES = [['cykp/', 'cykp/inv', 'cykq/', 'cykq/inv', 'cyk/'],
+                ['eamp/basic+res', 'eamp/basic+inv', 'eampq/basic+res', 'eampq/basic+inv', 'eamp/dyn+res', 'eampq/dyn+inv', 'eam/basic+res'],
+                ['lp/ctx', 'lp/ctx+inv', 'lp/ctx+none', 'lpq/ctx', 'lpq/ctx+inv', 'lp/basic', 'lp/basic+inv', 'lpq/basic'],
+                ['kw/ctx+ph', 'cb/ctx+cb1', 'cb/ctx+cbkw', 'kw/ctx+noph', 'kw/basic+ph', 'cb/basic+cb1', 'kw/ctx+pp'],
+                ['calc/ctx', 'tr/ctx+calc', 'calc/ctx+pp', 'calc/ctx+kat', 'calc/basic', 'tr/basic+calc'],
+                ['inl/ctx+ph', 'inl/ctx+noph', 'inl/ctx+kat', 'inl/ctx+pp', 'inl/basic+ph', 'inl/basic+kat']]
+
+    def _gen_instances_plan(self, rng):
+        """'unaffected by other instances created in the process': a sequence of instances of RELATED configurations (same grammar
+        text or same rule shapes, other priorities / options / callbacks) is built in this process, each used once; every outcome is
+        compared with the same call in a PRISTINE child interpreter that has never built anything else"""
+        fam = rng.choice(self.FAMILIES)
+        steps = []
+        for _ in range(rng.randint(2, 5)):
+            cfg = rng.choice(fam)
+            e = W.ENTRIES[cfg.partition('/')[0]]
+            p = self._gen_inst(cfg)
+            steps.append([cfg, ['parse', rng.choice(e.texts), sorted(p.options.start)[0]]])
+        return {'mode': 'instances', 'config': steps[0][0], 'steps': steps, 'tasks': [[s[1] for s in steps]], 'strategy': {'kind': 'serial'},
+                'sched_seed': 0, 'interrupts': [], 'warm': None}
+
     def gen_plan(self, rng, tier):
+        if rng.random() < 0.06:
+            return self._gen_instances_plan(rng)
         mode = 'threads' if rng.random() < 0.6 else 'history'
         cfg = rng.choice(self.thread_cfgs if mode == 'threads' else self.all_cfgs)
         if rng.random() < 0.2:
@@ -210,7 +234,47 @@ class C10(Check):
         return v
 
     # ------------------------------------------------------------------ execution
+    def _pristine(self, cfg, op):
+        key = (cfg, jhash(op))
+        v = self.pristine.get(key)
+        if v is None:
+            tr, err = nodes.run_node({'kind': 'c10', 'items': [[cfg, op]]}, int(os.environ.get('PYTHONHASHSEED', '0') or 0))
+            if tr is None:
+                return None
+            v = self.pristine[key] = tr['results'][0]
+        return v
+
+    def _execute_instances(self, plan):
+        """the sequence of instances is built in ONE fresh child interpreter (its whole history is the plan, so it replays), every
+        outcome is compared with the same call in a pristine interpreter that has built nothing else"""
+        out = Outcome()
+        log = []
+        hs = int(os.environ.get('PYTHONHASHSEED', '0') or 0)
+        tr, err = nodes.run_node({'kind': 'c10', 'items': plan['steps'], 'sequence': True}, hs)
+        out.tick('node_executions')
+        if tr is None:
+            out.count('inconclusive:node-failed')
+            return out
+        for i, ((cfg, op), got) in enumerate(zip(plan['steps'], tr['results'])):
+            want = self._pristine(cfg, op)
+            out.tick('api_ops')
+            if want is None:
+                out.count('inconclusive:node-failed')
+                break
+            out.count('probe:instance-vs-pristine-process')
+            log.append([cfg, jhash(got)])
+            if got != want:
+                out.violation = Violation('outcome-differs(parse,other-instances-in-process)', config=cfg, step=i, op=op, got=got, want_in_pristine_process=want,
+                                          built_before=[s[0] for s in plan['steps'][:i]])
+                break
+        out.nontrivial = len(plan['steps']) >= 2
+        out.case_hash = jhash(plan)
+        out.digest = jhash([log, out.violation])
+        return out
+
     def execute(self, plan, forced=None):
+        if plan.get('mode') == 'instances':
+            return self._execute_instances(plan)
         out = Outcome()
         cfg = plan['config']
         e = W.ENTRIES[cfg.partition('/')[0]]
@@ -355,6 +419,11 @@ class C10(Check):
 
     # ------------------------------------------------------------------ minimisation
     def shrink(self, plan, decisions, violation, fails):
+        if plan.get('mode') == 'instances':
+            steps = plan['steps']
+            last = steps[violation['detail'].get('step', len(steps) - 1)]
+            pre = ddmin(steps[:violation['detail'].get('step', len(steps) - 1)], lambda ss: fails(dict(plan, steps=ss + [last])) is not None, max_tests=20)
+            return dict(plan, steps=pre + [last], tasks=[[s[1] for s in pre + [last]]]), []
         # 1. drop interrupts, warm-up
         for key, empty in (('interrupts', []), ('warm', None)):
             if plan.get(key):
@@ -398,6 +467,8 @@ class C10(Check):
         return plan, dec
 
     def signature(self, plan, violation):
+        if plan.get('mode') == 'instances':
+            return '%s:[%s]' % (violation['kind'], ','.join(s[0] for s in plan['steps']))
         return '%s:%s:[%s]' % (violation['kind'], plan['config'].split('/')[0], ';'.join(','.join(o[0] for o in t) for t in plan['tasks']))
 
     def fixed_plans(self, tier):
